@@ -314,7 +314,21 @@ class Remove(DQSpec):
         self.new_object(ex)
         self.ret_state = None
         self.at_acquire = self.at_release = None
-        return {"self": self.me, "predicate": VOpaque("callable", lambda ex, a, k, n: VBool(W.pred(W.Elem.unwrap(a[0]))))}
+        def predicate(ex, a, k, n):
+            # caller-supplied code: it may raise while looking at an element
+            if ex.choose(2, "the predicate raises") == 1:
+                raise Raise(VExc("RuntimeError"), "predicate()")
+            return VBool(W.pred(W.Elem.unwrap(a[0])))
+        return {"self": self.me, "predicate": VOpaque("callable", predicate)}
+
+    def post_raise(self, ex, exc, site):
+        # the predicate's exception reaches the caller - with the queue's lock released and the queue as it was (a lock left
+        # held would block every later put / get / remove / close for ever)
+        ex.oblige("raises[only the predicate's own exception]", exc.cls == "RuntimeError" and site == "predicate()")
+        ex.oblige("raises[lock released]", LOCK not in ex.held)
+        if self.at_acquire is not None:
+            q = ex.heap[(self.me.id, "_queue")]
+            ex.oblige("raises[queue untouched]", z3.And(q.n == self.at_acquire["q"].n, q.arr == self.at_acquire["q"].arr))
 
     def acquire(self, ex):
         super().acquire(ex)
